@@ -271,9 +271,153 @@ func c05CacheOverlap(c *C) {
 	c.Nontrivial(fmt.Sprintf("cacheoverlap:%d", k))
 }
 
+// c05LazyNames: ONE compiled template whose computed-name includes ({% include name %}, in a loop, with `with`/`only`/
+// `if_exists`) are executed by k goroutines at once with DIFFERENT names per execution, while the loader delays every
+// fetch a little (an injected delay at the loader, i.e. between whatever critical sections the engine has around
+// loading and compiling). Each execution returns what it returns alone; and when everything has come to rest, executing
+// with each name once more still gives that name's text (state left behind by overlapping loads shows here).
+func c05LazyNames(c *C) {
+	r := c.R
+	nfiles := 3 + r.Intn(3)
+	files := map[string]string{}
+	names := []string{}
+	for i := 0; i < nfiles; i++ {
+		n := fmt.Sprintf("/n%d.tpl", i)
+		names = append(names, n)
+		files[n] = fmt.Sprintf("<N%d:{{ s }}:{{ w }}>", i)
+		if i > 0 && r.Chance(30) {
+			files[n] += fmt.Sprintf("{%% include %q %%}", names[r.Intn(i)]) // a static include below a computed one
+		}
+	}
+	files["/dir/rel.tpl"] = "<REL:{{ s }}>"
+	files["/dir/main2.tpl"] = "{% include relname %}|{% include pick %}"
+	files["/main.tpl"] = "{% include pick %}|{% for n in order %}{% include n %};{% endfor %}|{% include pick with w=\"W\" %}|{% include pick with w=s only %}|{% include missing if_exists %}|{% include pick if_exists %}|{% include pick|default:\"/n0.tpl\" %}"
+	mkSet := func(delay bool, gr *Rng) *pongo2.TemplateSet {
+		set, l := newSet(files)
+		if delay {
+			var mu sync.Mutex
+			l.onGet = func(string) error {
+				mu.Lock()
+				k := gr.Intn(4)
+				d := gr.Intn(300)
+				mu.Unlock()
+				switch k {
+				case 0:
+					runtime.Gosched()
+				case 1:
+					time.Sleep(time.Duration(d) * time.Microsecond)
+				}
+				return nil
+			}
+		}
+		return set
+	}
+	type cx struct {
+		pick  string
+		order []string
+		s     string
+	}
+	var ctxs []cx
+	for i := 0; i < 2*nfiles; i++ {
+		o := append([]string(nil), names...)
+		for j := len(o) - 1; j > 0; j-- {
+			k := r.Intn(j + 1)
+			o[j], o[k] = o[k], o[j]
+		}
+		ctxs = append(ctxs, cx{names[i%nfiles], o[:1+r.Intn(len(o))], fmt.Sprintf("s%d", i)})
+	}
+	mkCtx := func(x cx) pongo2.Context {
+		return pongo2.Context{"pick": x.pick, "order": x.order, "s": x.s, "missing": "/nosuch.tpl", "relname": "rel.tpl"}
+	}
+	entry := r.Pick([]string{"/main.tpl", "/dir/main2.tpl"})
+	// sequential references: fresh set, fresh compile, one execution
+	refs := make([]execResult, len(ctxs))
+	for i, x := range ctxs {
+		t, err := mkSet(false, nil).FromFile(entry)
+		if err != nil {
+			c.Fail("fresh-compile-failed", D{"files": files, "error": err.Error()})
+			return
+		}
+		refs[i] = detExec(t, mkCtx(x), 0)
+		if refs[i].err != "" {
+			c.Fail("fresh-compile-failed", D{"files": files, "error": refs[i].err, "why": "the sequential reference execution failed"})
+			return
+		}
+	}
+	procs := []int{2, 4, 16}[r.Intn(3)]
+	old := runtime.GOMAXPROCS(procs)
+	defer runtime.GOMAXPROCS(old)
+	set := mkSet(true, r.Fork())
+	shared, err := set.FromFile(entry)
+	if err != nil {
+		c.Fail("fresh-compile-failed", D{"files": files, "error": err.Error()})
+		return
+	}
+	k := []int{2, 4, 8, 16}[r.Intn(4)]
+	iters := 6 + r.Intn(10)
+	if c.Thorough() {
+		iters = 10 + r.Intn(40)
+	}
+	type miss struct {
+		g, it, ci int
+		phase     string
+		got       execResult
+	}
+	var mu sync.Mutex
+	var mm []miss
+	var wg sync.WaitGroup
+	start := make(chan struct{})
+	for g := 0; g < k; g++ {
+		gr := r.Fork()
+		wg.Add(1)
+		go func(g int, gr *Rng) {
+			defer wg.Done()
+			<-start
+			for it := 0; it < iters; it++ {
+				ci := (g + it*(1+g%3) + gr.Intn(2)) % len(ctxs)
+				got := detExec(shared, mkCtx(ctxs[ci]), gr.Intn(4))
+				if got != refs[ci] {
+					mu.Lock()
+					if len(mm) < 3 {
+						mm = append(mm, miss{g, it, ci, "concurrent", got})
+					}
+					mu.Unlock()
+				}
+			}
+		}(g, gr)
+	}
+	close(start)
+	wg.Wait()
+	c.Eval(k * iters)
+	// at rest: every context once more, twice
+	for round := 0; round < 2 && len(mm) == 0; round++ {
+		for ci := range ctxs {
+			got := detExec(shared, mkCtx(ctxs[ci]), round)
+			c.Eval(1)
+			if got != refs[ci] {
+				mm = append(mm, miss{-1, round, ci, "afterwards, one execution at a time", got})
+				break
+			}
+		}
+	}
+	if len(mm) > 0 {
+		m := mm[0]
+		c.Fail("concurrent-result-differs", D{"files": files, "entry": entry, "goroutines": k, "iterations": iters, "GOMAXPROCS": procs, "phase": m.phase, "operation": "execute-shared (computed include names differ between the concurrent executions; the loader delays fetches by 0-300us)",
+			"context": D{"pick": ctxs[m.ci].pick, "order": ctxs[m.ci].order, "s": ctxs[m.ci].s}, "observed": D{"out": q(truncStr(m.got.out, 600)), "err": m.got.err}, "sequential_reference": D{"out": q(truncStr(refs[m.ci].out, 600)), "err": refs[m.ci].err}, "mismatches": len(mm)})
+		return
+	}
+	c.Cover("computed_include_names_differ_between_goroutines")
+	c.AddExtra("concurrent_executions_observed", int64(k*iters))
+	c.Nontrivial(fmt.Sprintf("lazynames:%d:%d:%s:%v", k, nfiles, entry, ctxs[0].order))
+}
+
 func c05Run(c *C) {
 	if c.Idx%40 == 33 {
 		c05CacheOverlap(c)
+		return
+	}
+	if c.Idx%20 == 3 {
+		c05LazyNames(c)
 		return
 	}
 	if c.Idx%40 == 13 {
